@@ -1,8 +1,15 @@
 /-
 C06 driver.  `c06driver hist`: one history line per piece (forms separated by `;`), prints
-`S=<res> M=<res>`; `reset` starts over.  `c06driver unit`: drives `SymMap` like harness `c06 unit`.
+`S=<res> M=<res> ## …`: S = the specification on the piece as written, M = the mechanism model on the piece after
+the unit-local constant propagation (`evalPieceR`); after `##` the state of M (shadowed / free / threshold / epoch),
+the guards of `slots_refine_cells` for this piece (`gc gb gu`, `ok` = all pieces so far inside the guards), the guard
+of `propagate_refines_partial` (`ga`, `oka` = all pieces so far inside it; `fz` = number of frozen cells),
+whether the build failed (`rb` = a roll-back happened), whether the recycler ran (`rc`) and the largest number
+of allocated slots that carry one name (`d`).  `reset` starts over; `init n t e` replays a prelude of n
+redefinitions on S and on M with the threshold / epoch of the real engine, so that the run starts in a state
+that `slots_refine_cells` covers.  `c06driver unit`: drives `SymMap` like harness `c06 unit`.
 -/
-import SteelVerif.C06.Model
+import SteelVerif.C06.LemmasPropagate3
 namespace SteelVerif.C06
 
 def parseRef (s : String) : Option Ref :=
@@ -32,34 +39,58 @@ def showRes : Res → String
   | .ok vals => "ok " ++ "|".intercalate vals
   | .err => "err"
 
-partial def histLoop (h : IO.FS.Stream) (s : Spec.State) (m : State) : IO Unit := do
+/-- The largest number of allocated (not reclaimed) slots carrying the same name. -/
+def shadowDepth (m : SymMap) : Nat :=
+  let live := (List.range m.values.length).filter (fun i => !m.fl.free.contains i)
+  let names := live.filterMap (fun i => m.values[i]?)
+  names.eraseDups.foldl (fun acc n => max acc (names.filter (· == n)).length) 0
+
+/-- The prelude of the real engine as a history: `n` names defined twice. -/
+def preludeHist (n : Nat) : History :=
+  ((List.range n).map fun i => [Form.defc s!"##prelude{i}" 0]) ++
+  ((List.range n).map fun i => [Form.defc s!"##prelude{i}" 0])
+
+def runPrelude (n t e : Nat) : Spec.State × State :=
+  let m0 : State := { sym := { fl := { threshold := t, epoch := e } } }
+  (stateS {} (preludeHist n), stateM m0 (preludeHist n))
+
+def b2s (b : Bool) : String := if b then "1" else "0"
+
+partial def histLoop (h : IO.FS.Stream) (s : Spec.State) (m : State) (ok : Bool) (fz : Frozen := []) (oka : Bool := true) : IO Unit := do
   let l ← h.getLine
   if l.isEmpty then return ()
   let l := l.trimAscii.toString
   if l == "reset" then
     IO.println "reset"
-    histLoop h {} {}
+    histLoop h {} {} true
   else if l.startsWith "init " then
     -- `init <shadowed> <threshold> <epoch>`: the state of the real engine after loading its prelude
     match (l.splitOn " ").filter (· ≠ "") with
     | [_, sh, t, e] =>
-        let n := sh.toNat!
-        let names := (List.range n).map (fun i => s!"##prelude{i}")
-        let sym : SymMap := { values := names, map := [],
-                              fl := { shadowed := List.range n, threshold := t.toNat!, epoch := e.toNat! } }
-        histLoop h s { sym := sym, globals := List.replicate n .void }
-    | _ => IO.println "bad"; histLoop h s m
+        let (s0, m0) := runPrelude sh.toNat! t.toNat! e.toNat!
+        histLoop h s0 m0 true
+    | _ => IO.println "bad"; histLoop h s m ok fz oka
   else
     let forms := (l.splitOn ";").map parseForm
     if forms.all Option.isSome then
       let fs := forms.filterMap id
+      let pfs := propagate fs
       let (s', rs) := Spec.evalPiece s fs
-      let (m', rm) := evalPiece m fs
-      IO.println s!"S={showRes rs} M={showRes rm} ## s={m'.sym.fl.shadowed.length} f={m'.sym.fl.free.length} t={m'.sym.fl.threshold} e={m'.sym.fl.epoch}"
-      histLoop h s' m'
+      let (m', rm) := evalPieceR m fs
+      let gc := guardC m pfs
+      let gb := guardB pfs
+      let gu := guardU pfs
+      let ok' := ok && gc && gb && gu
+      let rb := !(buildOk m.sym pfs)
+      let rc := m'.sym.fl.epoch != m.sym.fl.epoch
+      let ga := guardA (fz ++ newFz (unitEnv s fs) fs) (unitEnv s fs) fs
+      let oka' := oka && pieceOKA fz s fs
+      let fz' := fzNext fz s fs
+      IO.println s!"S={showRes rs} M={showRes rm} ## s={m'.sym.fl.shadowed.length} f={m'.sym.fl.free.length} t={m'.sym.fl.threshold} e={m'.sym.fl.epoch} gc={b2s gc} gb={b2s gb} gu={b2s gu} ok={b2s ok'} ga={b2s ga} oka={b2s oka'} fz={fz'.length} rb={b2s rb} rc={b2s rc} d={shadowDepth m'.sym} pr={b2s (pfs != fs)}"
+      histLoop h s' m' ok' fz' oka'
     else
       IO.println "bad"
-      histLoop h s m
+      histLoop h s m ok fz oka
 
 def showSym (m : SymMap) : String :=
   let mp := (m.map.map fun (k, v) => s!"{k}={v}").toArray.qsort (· < ·) |>.toList
@@ -94,7 +125,7 @@ partial def unitLoop (h : IO.FS.Stream) (m : SymMap) (marks : List Nat := []) : 
 def mainC06 (args : List String) : IO Unit := do
   match args with
   | ["unit"] => unitLoop (← IO.getStdin) {} []
-  | _ => histLoop (← IO.getStdin) {} {}
+  | _ => histLoop (← IO.getStdin) {} {} true
 
 end SteelVerif.C06
 
